@@ -84,7 +84,7 @@ C02Splices ==
   { {i} : i \in 0..25 } \cup { {x[1], x[2]} : x \in { y \in (0..25) \X (0..25) : y[1] < y[2] } }
   \cup Blocks \cup Sampled \cup { {}, 0..25 }
 \* splices apply to one circuit only (they are about the proof encoding)
-SpliceProg == P2
+C02SpliceProgs == {P2}
 
 (* ================================ c01 ================================== *)
 Window(k) == { c \in (Pow2(k) - 8)..(Pow2(k) + 2) : c >= 4 }
